@@ -209,7 +209,18 @@ def handle (j : Json) : Except String Json := do
     | .error e => pure (jErr (errTag e))
     | .ok ts => pure (jOk (jList jLTok ts))
   | "query" => do
-    let r ← handleQuery j
+    let r0 ← handleQuery j
+    -- the generator's words: are they spellings (`spells`) of the tokens the lexer model finds?
+    let r ← match j.getObjVal? "words" with
+      | .error _ => pure r0
+      | .ok wj => do
+        let ws ← (← wj.getArr?).toList.mapM ofCps
+        let ok := match lexLine (ws.length + 2) (renderW (ws ++ [['.']])) with
+          | .error _ => false
+          | .ok ts =>
+            let ps := (ws ++ [['.']]).zip ts
+            ts.length = ws.length + 1 && ps.all (fun p => spells p.1 p.2) && seqOKW ps
+        pure (r0.mergeObj (Json.mkObj [("spelled", Json.bool ok)]))
     match j.getObjVal? "text" with
     | .error _ => pure r
     | .ok t => do
